@@ -26,6 +26,9 @@ import string
 from common import *
 
 chk = Check('C04')
+if os.environ.get('VERIF_DEBUG'):
+    import faulthandler
+    faulthandler.register(signal.SIGUSR1, all_threads=True)
 chk.extra['rule'] = ('a case = molecule of 1-3 residues, each a presentation (renamed X1..Xn / names shuffled within an '
                      'element / atom order permuted / sparse keys / atoms removed / extra atoms attached / mutation or '
                      'modification request) of a block of charmm, amber or gromos (or of its hydrogen-free skeleton); '
@@ -52,8 +55,34 @@ class CaseTimeout(Exception):
     pass
 
 
+_ARMED = [False]
+
+
 def _vt(signum, frame):
+    if not _ARMED[0]:
+        return
+    # Never raise inside coverage.py (anchor line coverage of common.py): its collector holds a non-reentrant lock
+    # between lock_data() and unlock_data(); an exception thrown in there leaves the lock taken and the next traced
+    # call dead-locks the whole check.  The timer repeats, so the time-out comes a quarter of a second later.
+    f, depth = frame, 0
+    while f is not None and depth < 8:
+        if '/coverage/' in f.f_code.co_filename:
+            return
+        f, depth = f.f_back, depth + 1
     raise CaseTimeout()
+
+
+def arm(seconds):
+    """CPU-time limit for a call into the real code.  The timer REPEATS: an exception raised by the handler while the
+    interpreter runs a finaliser (generator close, __del__) or a logging handler is swallowed there, and a one-shot
+    timer would then leave the search unbounded."""
+    _ARMED[0] = True
+    signal.setitimer(signal.ITIMER_VIRTUAL, seconds, 0.25)
+
+
+def disarm():
+    _ARMED[0] = False
+    signal.setitimer(signal.ITIMER_VIRTUAL, 0)
 
 
 signal.signal(signal.SIGVTALRM, _vt)
@@ -539,19 +568,25 @@ def run_real(mol, include_graph):
     RG.make_reference = spy
     res = dict(status='ok')
     t0 = time.time()
-    signal.setitimer(signal.ITIMER_VIRTUAL, CASE_TIMEOUT)
     try:
-        with refspy:
-            out = RG.RepairGraph(include_graph=include_graph).run_molecule(mol)
-        signal.setitimer(signal.ITIMER_VIRTUAL, 0)
-        res['out'] = out
+        try:
+            arm(CASE_TIMEOUT)
+            with refspy:
+                out = RG.RepairGraph(include_graph=include_graph).run_molecule(mol)
+            disarm()
+            res['out'] = out
+        finally:
+            disarm()
     except CaseTimeout:
+        disarm()
+        refspy.__exit__()
         res['status'] = 'timeout'
+        res.pop('out', None)
     except Exception as err:  # noqa
-        signal.setitimer(signal.ITIMER_VIRTUAL, 0)
+        disarm()
         res['status'] = 'error:%s:%s' % (type(err).__name__, str(err)[:200])
     finally:
-        signal.setitimer(signal.ITIMER_VIRTUAL, 0)
+        disarm()
         RG.make_reference = orig
         lg.handlers[:] = old_handlers
         lg.setLevel(old_level)
@@ -921,16 +956,18 @@ def pull_more_answers(spy, limit=3, seconds=0.5):
     for rec in spy.ismags:
         if rec['gen'] is None or rec['exhausted'] or len(rec['graph']) > 12 or len(rec['subgraph']) > 14:
             continue
-        signal.setitimer(signal.ITIMER_VIRTUAL, seconds)
         try:
-            for _ in range(limit):
-                if next(rec['gen'], None) is None:
-                    break
+            try:
+                arm(seconds)
+                for _ in range(limit):
+                    if next(rec['gen'], None) is None:
+                        break
+            finally:
+                disarm()
         except CaseTimeout:
+            disarm()
             rec['gen'] = None
             chk.count('more_answers_timeout')
-        finally:
-            signal.setitimer(signal.ITIMER_VIRTUAL, 0)
         chk.count('answers_recorded=%d' % min(len(rec['answers']), 4))
 
 
@@ -941,18 +978,19 @@ def cache_transparent(spy):
     for i, rec in enumerate(spy.ismags):
         if i == 0 or len(rec['graph']) > 24 or not rec['answers']:
             continue
-        signal.setitimer(signal.ITIMER_VIRTUAL, 1.0)
         try:
-            fresh = next(REAL_ISMAGS(rec['graph'], rec['subgraph'], node_match=rec['node_match']).largest_common_subgraph(), None)
-            signal.setitimer(signal.ITIMER_VIRTUAL, 0)
+            try:
+                arm(1.0)
+                fresh = next(REAL_ISMAGS(rec['graph'], rec['subgraph'], node_match=rec['node_match']).largest_common_subgraph(), None)
+            finally:
+                disarm()
             chk.count('cache_transparency_checked')
             if fresh is None or list(fresh.items()) != rec['answers'][0]:
                 errs.append('residue #%d: with the symmetry cache shared in the molecule the matcher answered %s, '
                             'without cache %s' % (i, rec['answers'][0], fresh))
         except CaseTimeout:
+            disarm()
             chk.count('cache_transparency_timeout')
-        finally:
-            signal.setitimer(signal.ITIMER_VIRTUAL, 0)
         if any(r['cache'] is not spy.ismags[0]['cache'] for r in spy.ismags):
             errs.append('the residues of one molecule do not share one symmetry cache')
     return errs
